@@ -464,3 +464,19 @@ func QualifiedValuesProgram(p *spec.Program) *spec.Program {
 // usesTemporalUnmappable: placeholder for configurations in which dropping the exclusions would make a
 // selected type unmappable (none in the programs used here: time_type / duration_type are always set).
 func usesTemporalUnmappable(p *spec.Program, c spec.Config) bool { return false }
+
+// PartialTypesProgram: the corpus without duration_type (time_type stays): the custom duration type is
+// configured although nothing maps it, so every selected type that reaches a duration is left out — on
+// whichever channel the options arrive.
+func PartialTypesProgram(p *spec.Program) *spec.Program {
+	q := cloneProgram(p)
+	q.Config.DurationType = nil
+	// a selected type whose only temporal fields are cast to the custom duration type
+	q.Messages = append(q.Messages, spec.Message{Name: "OnlyCast", Fields: []spec.Field{
+		{Name: "OcName", Num: 1, Kind: spec.KString},
+		{Name: "OcTTL", Num: 2, Kind: spec.KInt64, Cast: spec.DurationCastName, JSON: "oc_ttl"},
+		{Name: "OcGraces", Num: 3, Kind: spec.KInt64, Cast: spec.DurationCastName, Card: spec.CardList},
+	}})
+	q.Config.Types = append(q.Config.Types, "OnlyCast")
+	return q
+}
